@@ -73,7 +73,30 @@ func checkC16(c *Check) {
 	if fi := p.Func("internal/endpoint/smtp", "Endpoint", "wrapErr"); fi == nil {
 		c.Fail("R6", "smtp.(*Endpoint).wrapErr", token.NoPos, "anchor unresolved")
 	} else {
-		checkASCIIPredicate(c, "R6", fi.Name(), fi.Info(), nil, fi.Decl.Body, true)
+		// the mask is in wrapErr itself or in a helper of the package it hands the text to
+		target := fi
+		hasRange := func(d *FuncInfo) bool {
+			found := false
+			ast.Inspect(d.Decl.Body, func(n ast.Node) bool {
+				if rs, ok := n.(*ast.RangeStmt); ok {
+					if tv, ok := d.Info().Types[rs.X]; ok && isStringType(tv.Type) {
+						found = true
+					}
+				}
+				return true
+			})
+			return found
+		}
+		if !hasRange(fi) {
+			for _, call := range callsIn(fi.Decl.Body) {
+				if fn := callee(fi.Info(), call); fn != nil && fn.Pkg() == fi.Obj.Pkg() {
+					if d := p.DeclOf(fn); d != nil && d.Decl.Body != nil && hasRange(d) {
+						target = d
+					}
+				}
+			}
+		}
+		checkASCIIPredicate(c, "R6", fi.Name(), target.Info(), nil, target.Decl.Body, true)
 	}
 	c.Rule("R6b", "without SMTPUTF8 (mangleUTF8 set) every reply leaves wrapErr through the mask, applied to the final text: no condition other than the flag skips it and no text is stored after it", 1)
 	if r := c.need("R6b", "internal/endpoint/smtp", "Endpoint", "wrapErr"); r != nil {
